@@ -264,7 +264,7 @@ def check_series(case):
 @st.composite
 def frame_cases(draw):
     opn = draw(st.sampled_from([o for o in sorted(OPS) if o not in LOGICAL]))  # decisive choices first
-    other = draw(st.sampled_from(['frame', 'series_T', 'series', 'same', 'frame']))
+    other = draw(st.sampled_from(['frame', 'series_T', 'series', 'same', 'seq_T', 'frame']))
     ni, nc = draw(st.sampled_from([3, 2, 4, 1, 5])), draw(st.sampled_from([3, 2, 4, 1, 5]))
     ipool = draw(gen.flat_labels(ni, draw(st.sampled_from(['int', 'str']))))
     cpool = draw(gen.flat_labels(nc, draw(st.sampled_from(['str', 'int']))))
@@ -282,6 +282,10 @@ def frame_cases(draw):
         ci = [p for p in draw(st.permutations(list(range(nc)))) if draw(st.booleans())]
         kind = draw(st.sampled_from(['int64', 'float64']))
         b = {'ci': ci, 'values': draw(gen.column(kind, len(ci)))}
+    elif other == 'seq_T':
+        # an unlabelled sequence on the LEFT of Frame.via_T (the reflected operator): one element per row, by position
+        kind = draw(st.sampled_from(['int64', 'float64']))
+        b = {'seq': draw(gen.column(kind, len(a['ri']), missing=False)), 'left_is': draw(st.sampled_from(['list', 'tuple']))}
     elif other == 'series_T':
         # a Series applied along the index through Frame.via_T; its labels are row labels (often all of them, permuted,
         # so that the aligned frame is as tall as it is wide)
@@ -320,6 +324,17 @@ def check_frame(case):
         ib = rows
         cols = list(ca) + [c for c in cb if not any(eq(canon(c), canon(x)) for x in ca)]
         s_al, s_miss = _align(cols, cb, case['b']['values'])
+    elif case['other'] == 'seq_T':
+        if case['op'] not in ('add', 'sub', 'mul', 'truediv', 'floordiv'):
+            raise Discard('reflected via_T forms exist for + - * / // only')
+        seq = case['b']['seq']
+        left = arr_list(seq) if case['b']['left_is'] == 'list' else tuple(arr_list(seq))
+        if not len(ia) or not len(ca):
+            raise Discard('empty frame')
+        with np.errstate(all='ignore'):
+            r = lib(lambda: fn(left, fa.via_T))
+        rows, cols, ib, cb = list(ia), list(ca), list(ia), list(ca)
+        sT_al, sT_miss = np.array(seq), [False] * len(rows)
     elif case['other'] == 'series_T':
         ib = [case['ipool'][p] for p in case['b']['ri']]
         sb = sf.Series(case['b']['values'], index=ib)
@@ -344,14 +359,14 @@ def check_frame(case):
         if case['other'] == 'series':
             al_b = np.array([arr_list(s_al)[j]] * len(rows), dtype=s_al.dtype) if len(rows) else np.empty(0, dtype=s_al.dtype)
             miss_b = [s_miss[j]] * len(rows)
-        elif case['other'] == 'series_T':
+        elif case['other'] in ('series_T', 'seq_T'):
             al_b, miss_b = sT_al, sT_miss
         else:
             jb = next((q for q, x in enumerate(cb) if eq(canon(x), canon(c))), None)
             al_b, miss_b = _col_aligned(rows, ib, cols_b[jb] if jb is not None else None)
         with np.errstate(all='ignore'):
             try:
-                wants.append((fn(al_a, al_b), miss_a, miss_b))
+                wants.append(((fn(al_b, al_a) if case['other'] == 'seq_T' else fn(al_a, al_b)), miss_a, miss_b))
             except Exception:  # noqa: BLE001 - NumPy cannot combine this column pair: outside the claim
                 raise Discard('numpy cannot combine %s %s %s' % (al_a.dtype, case['op'], al_b.dtype))
     if isinstance(r, Raised):
@@ -371,7 +386,7 @@ def check_frame(case):
             w = arr_list(want)[i]
             if not (eq(g, w) or (is_missing(g) and is_missing(w)) or _close(g, w)):
                 note = ''
-                if case['other'] not in ('series', 'series_T') and _consolidated_explains(fn, rows, cols, ia, ca, cols_a, ib, cb, cols_b, j, i, g):
+                if case['other'] not in ('series', 'series_T', 'seq_T') and _consolidated_explains(fn, rows, cols, ia, ca, cols_a, ib, cb, cols_b, j, i, g):
                     note = ' [consolidated-dtype-explains]'
                 raise Failure('value', '%s at (%r,%r): got %r expected %r%s' % (case['op'], rr, c, g, w, note))
             if (miss_a[i] or miss_b[i]) and case['op'] in ARITH and not is_missing(g):
